@@ -85,7 +85,7 @@ func runC03(cfg *vh.Config) error {
 	}
 
 	// ---- stream 1+2: canonical documents, their spelling variants (leniency) and exactness of both
-	nBase := cfg.Scale(170, 4000)
+	nBase := cfg.Scale(170, 1400)
 	var bases []struct {
 		t    *target
 		tree *codecgen.J
@@ -144,7 +144,7 @@ func runC03(cfg *vh.Config) error {
 	}
 
 	// ---- stream 2b: generally valid documents in mixed spellings: exactness
-	nMixed := cfg.Scale(250, 6000)
+	nMixed := cfg.Scale(250, 2500)
 	for i := 0; i < nMixed; i++ {
 		t := pickTarget()
 		g := codecgen.NewGen(r, t.Env)
@@ -163,7 +163,7 @@ func runC03(cfg *vh.Config) error {
 	}
 
 	// ---- stream 3: exactly one injected fault
-	nFault := cfg.Scale(700, 20000)
+	nFault := cfg.Scale(700, 7000)
 	disagree := 0
 	for i := 0; i < nFault; i++ {
 		b := vh.Pick(r, bases)
@@ -307,16 +307,16 @@ func runC03(cfg *vh.Config) error {
 
 	// ---- stream 6: boundary literals per scalar kind, one member per document
 	boundary := map[codecgen.Kind][]*codecgen.J{
-		"KInt32":     {codecgen.Num("2147483647"), codecgen.Num("-2147483648"), codecgen.Str("2147483647"), codecgen.Num("2147483648"), codecgen.Str("-2147483649"), codecgen.Num("-0"), codecgen.Num("1e2"), codecgen.Num("1.0"), codecgen.Str("+1"), codecgen.Str(" 1"), codecgen.Str("1 "), codecgen.Str("01"), codecgen.Str("")},
-		"KInt64":     {codecgen.Num("9223372036854775807"), codecgen.Str("-9223372036854775808"), codecgen.Num("9223372036854775808"), codecgen.Str("9223372036854775808"), codecgen.Num("1e18"), codecgen.Str("1e18")},
-		"KUint32":    {codecgen.Num("4294967295"), codecgen.Str("4294967295"), codecgen.Num("4294967296"), codecgen.Num("-0"), codecgen.Str("-0"), codecgen.Num("-1"), codecgen.Str("+1")},
-		"KUint64":    {codecgen.Num("18446744073709551615"), codecgen.Str("18446744073709551615"), codecgen.Num("18446744073709551616"), codecgen.Str("18446744073709551616"), codecgen.Num("-0"), codecgen.Num("-1")},
-		"KFloat32":   {codecgen.Num("3.4028235e38"), codecgen.Num("3.4028235e+38"), codecgen.Num("3.4028236e38"), codecgen.Num("3.5e38"), codecgen.Num("1.00000005960464477539062500000000000000000000000001"), codecgen.Num("1.000000059604644775390625"), codecgen.Num("16777217"), codecgen.Num("1e-46"), codecgen.Num("1.401298464324817e-45"), codecgen.Num("-0"), codecgen.Str("1e39"), codecgen.Str("Infinity"), codecgen.Str("NaN")},
-		"KFloat64":   {codecgen.Num("1.7976931348623157e308"), codecgen.Num("1.7976931348623159e308"), codecgen.Num("5e-324"), codecgen.Num("2e-324"), codecgen.Num("0.1"), codecgen.Num("9007199254740993"), codecgen.Num("-0"), codecgen.Str("-Infinity")},
-		"KBytes":     {codecgen.Str(""), codecgen.Str("AQ"), codecgen.Str("AQ=="), codecgen.Str("AQ="), codecgen.Str("AR=="), codecgen.Str("-_-_"), codecgen.Str("+/+/"), codecgen.Str("-/+_"), codecgen.Str("AQID\n"), codecgen.Str("A"), codecgen.Str("AQIDBA")},
-		"KDate":      {codecgen.Str("2024-02-29"), codecgen.Str("2023-02-29"), codecgen.Str("0000-01-01"), codecgen.Str("9999-12-31"), codecgen.Str("10000-01-01"), codecgen.Str("2024-1-2"), codecgen.Str("2024-04-31"), codecgen.Str("1900-02-29"), codecgen.Str("2000-02-29")},
-		"KDecimal":   {codecgen.Str("0"), codecgen.Num("0"), codecgen.Str("-0"), codecgen.Str("1.50"), codecgen.Num("1.50"), codecgen.Str("1e3"), codecgen.Num("1e3"), codecgen.Str(".5"), codecgen.Str("5."), codecgen.Str("1e1000"), codecgen.Str("1e1001"), codecgen.Str("0.0000000000000000000000000000000000001")},
-		"KTimestamp": {codecgen.Str("0001-01-01T00:00:00Z"), codecgen.Str("9999-12-31T23:59:59.999999999Z"), codecgen.Str("1970-01-01T00:00:00Z"), codecgen.Str("2020-02-29T12:00:00+14:00"), codecgen.Str("2020-02-29T12:00:00-12:00"), codecgen.Str("2020-01-01T00:00:00.1234567891Z"), codecgen.Str("2016-12-31T23:59:60Z"), codecgen.Str("2020-01-01T24:00:00Z"), codecgen.Str("2021-02-29T00:00:00Z")},
+		"KInt32":     {codecgen.Num("1e60000000"), codecgen.Num("0e-2000000000"), codecgen.Str("1e60000000"), codecgen.Num("2147483647"), codecgen.Num("-2147483648"), codecgen.Str("2147483647"), codecgen.Num("2147483648"), codecgen.Str("-2147483649"), codecgen.Num("-0"), codecgen.Num("1e2"), codecgen.Num("1.0"), codecgen.Str("+1"), codecgen.Str(" 1"), codecgen.Str("1 "), codecgen.Str("01"), codecgen.Str("")},
+		"KInt64":     {codecgen.Num("1e60000000"), codecgen.Num("0e-2000000000"), codecgen.Str("1e60000000"), codecgen.Num("9223372036854775807"), codecgen.Str("-9223372036854775808"), codecgen.Num("9223372036854775808"), codecgen.Str("9223372036854775808"), codecgen.Num("1e18"), codecgen.Str("1e18")},
+		"KUint32":    {codecgen.Num("1e60000000"), codecgen.Num("0e-2000000000"), codecgen.Str("1e60000000"), codecgen.Num("4294967295"), codecgen.Str("4294967295"), codecgen.Num("4294967296"), codecgen.Num("-0"), codecgen.Str("-0"), codecgen.Num("-1"), codecgen.Str("+1")},
+		"KUint64":    {codecgen.Num("1e60000000"), codecgen.Num("0e-2000000000"), codecgen.Str("1e60000000"), codecgen.Num("18446744073709551615"), codecgen.Str("18446744073709551615"), codecgen.Num("18446744073709551616"), codecgen.Str("18446744073709551616"), codecgen.Num("-0"), codecgen.Num("-1")},
+		"KFloat32":   {codecgen.Num("1e60000000"), codecgen.Num("0e-2000000000"), codecgen.Str("1e60000000"), codecgen.Num("3.4028235e38"), codecgen.Num("3.4028235e+38"), codecgen.Num("3.4028236e38"), codecgen.Num("3.5e38"), codecgen.Num("1.00000005960464477539062500000000000000000000000001"), codecgen.Num("1.000000059604644775390625"), codecgen.Num("16777217"), codecgen.Num("1e-46"), codecgen.Num("1.401298464324817e-45"), codecgen.Num("-0"), codecgen.Str("1e39"), codecgen.Str("Infinity"), codecgen.Str("NaN")},
+		"KFloat64":   {codecgen.Num("1e60000000"), codecgen.Num("0e-2000000000"), codecgen.Str("1e60000000"), codecgen.Num("1.7976931348623157e308"), codecgen.Num("1.7976931348623159e308"), codecgen.Num("5e-324"), codecgen.Num("2e-324"), codecgen.Num("0.1"), codecgen.Num("9007199254740993"), codecgen.Num("-0"), codecgen.Str("-Infinity")},
+		"KBytes":     {codecgen.Str(" "), codecgen.Str(""), codecgen.Str("AQ"), codecgen.Str("AQ=="), codecgen.Str("AQ="), codecgen.Str("AR=="), codecgen.Str("-_-_"), codecgen.Str("+/+/"), codecgen.Str("-/+_"), codecgen.Str("AQID\n"), codecgen.Str("A"), codecgen.Str("AQIDBA")},
+		"KDate":      {codecgen.Str(" "), codecgen.Str(""), codecgen.Str("2024-02-29"), codecgen.Str("2023-02-29"), codecgen.Str("0000-01-01"), codecgen.Str("9999-12-31"), codecgen.Str("10000-01-01"), codecgen.Str("2024-1-2"), codecgen.Str("2024-04-31"), codecgen.Str("1900-02-29"), codecgen.Str("2000-02-29")},
+		"KDecimal":   {codecgen.Str(""), codecgen.Num("1e60000000"), codecgen.Num("0e-2000000000"), codecgen.Str("1e60000000"), codecgen.Str("0"), codecgen.Num("0"), codecgen.Str("-0"), codecgen.Str("1.50"), codecgen.Num("1.50"), codecgen.Str("1e3"), codecgen.Num("1e3"), codecgen.Str(".5"), codecgen.Str("5."), codecgen.Str("1e1000"), codecgen.Str("1e1001"), codecgen.Str("0.0000000000000000000000000000000000001")},
+		"KTimestamp": {codecgen.Str(" "), codecgen.Str(""), codecgen.Str("0001-01-01T00:00:00Z"), codecgen.Str("9999-12-31T23:59:59.999999999Z"), codecgen.Str("1970-01-01T00:00:00Z"), codecgen.Str("2020-02-29T12:00:00+14:00"), codecgen.Str("2020-02-29T12:00:00-12:00"), codecgen.Str("2020-01-01T00:00:00.1234567891Z"), codecgen.Str("2016-12-31T23:59:60Z"), codecgen.Str("2020-01-01T24:00:00Z"), codecgen.Str("2021-02-29T00:00:00Z")},
 		"KBool":      {codecgen.Bool(true), codecgen.Bool(false), codecgen.Str("true"), codecgen.Num("1"), codecgen.Num("0")},
 		"KString":    {codecgen.Str(""), codecgen.Str("\u0000"), codecgen.Str("\U0010FFFF"), codecgen.Num("1"), codecgen.Bool(true)},
 	}
